@@ -482,6 +482,19 @@ func cmpGoroutines(want, got []*stack.Goroutine) error {
 	return nil
 }
 
+// docIsPtr is the pointer classification as documented next to pointerFloor/pointerCeiling.
+func docIsPtr(v uint64) (isPtr, decided bool) {
+	switch {
+	case v <= 512*1024:
+		return false, true
+	case v < 1<<63-1:
+		return true, true
+	case v == 1<<63-1:
+		return false, false
+	}
+	return false, true
+}
+
 // ptrConsistency checks that pointer-likeness is a function of the value alone.
 func ptrConsistency(gs []*stack.Goroutine) error {
 	seen := map[uint64]bool{}
@@ -496,6 +509,12 @@ func ptrConsistency(gs []*stack.Goroutine) error {
 			}
 			if v.IsOffsetTooLarge {
 				continue
+			}
+			// The documented classification (stack.go: "all values above 512KiB and positive
+			// are pointers"). Exactly MaxInt64 is left open: the comment and the code disagree
+			// about it.
+			if want, decided := docIsPtr(v.Value); decided && want != v.IsPtr && err == nil {
+				err = fmt.Errorf("value %#x: IsPtr=%v, documented classification says %v (pointers are the values above 512KiB that are positive)", v.Value, v.IsPtr, want)
 			}
 			if p, ok := seen[v.Value]; ok && p != v.IsPtr && err == nil {
 				err = fmt.Errorf("value %#x is pointer-like in one place and not in another", v.Value)
